@@ -166,6 +166,121 @@ theorem inv_upd {E : List (Int × Int)} {defs : List (Int × List Int)} {ins out
     · subst hu; rw [upd_same] at hd; exact hin d hd
     · rw [upd_other _ _ hu] at hd; exact h.2 u d hd
 
+/-! ### the use-site layer: every definition in any table is a registered one -/
+
+theorem mem_transfer_imp (s : Int) : ∀ (syms : List Int) (cur : List Def) (d : Def),
+    d ∈ (transfer s syms cur).1 → d ∈ cur ∨ (d.2 = s ∧ d.1 ∈ syms) := by
+  intro syms
+  induction syms with
+  | nil => intro cur d h; exact Or.inl (by simpa [transfer] using h)
+  | cons sym rest ih =>
+    intro cur d h
+    simp only [transfer] at h
+    split at h
+    · rcases ih cur d h with h1 | ⟨h1, h2⟩
+      · exact Or.inl h1
+      · exact Or.inr ⟨h1, List.mem_cons_of_mem _ h2⟩
+    · rcases ih _ d h with h1 | ⟨h1, h2⟩
+      · rw [List.mem_append] at h1
+        rcases h1 with h1 | h1
+        · exact Or.inl (List.mem_filter.1 h1).1
+        · rw [List.mem_singleton] at h1
+          subst h1
+          exact Or.inr ⟨rfl, List.mem_cons_self⟩
+      · exact Or.inr ⟨h1, List.mem_cons_of_mem _ h2⟩
+
+theorem lookup_mem : ∀ (l : List (Int × List Int)) {s : Int} {v : List Int}, l.lookup s = some v → (s, v) ∈ l := by
+  intro l
+  induction l with
+  | nil => intro s v h; simp at h
+  | cons e es ih =>
+    intro s v h
+    obtain ⟨a, b⟩ := e
+    simp only [List.lookup_cons] at h
+    split at h
+    · rename_i heq
+      have : s = a := by simpa using heq
+      simp only [Option.some.injEq] at h
+      subst this; subst h
+      exact List.mem_cons_self
+    · exact List.mem_cons_of_mem _ (ih h)
+
+theorem mem_register_of_defsOf (I : Input) {sym s : Int} (h : sym ∈ defsOf I.defs s) :
+    (sym, s) ∈ register I := by
+  unfold defsOf at h
+  split at h
+  · rename_i l hl
+    unfold register
+    rw [List.mem_flatMap]
+    refine ⟨(s, l), ?_, ?_⟩
+    · exact lookup_mem I.defs hl
+    · simp only [List.mem_map]
+      exact ⟨sym, h, rfl⟩
+  · simp at h
+
+/-- every definition in any table of the state is a registered one -/
+def RegInv (I : Input) (st : St) : Prop :=
+  (∀ u d, d ∈ st.outs u → d ∈ register I) ∧ (∀ u d, d ∈ st.ins u → d ∈ register I) ∧
+  (∀ l ∈ st.inTrace, ∀ d ∈ l, d ∈ register I)
+
+theorem analyse_reg (I : Input) (G : Graph) (st : St) (s : Int) (h : RegInv I st) :
+    (∀ d ∈ (analyse I G st s).1, d ∈ register I) ∧ (∀ d ∈ (analyse I G st s).2.1, d ∈ register I) := by
+  have hin : ∀ d ∈ (analyse I G st s).1, d ∈ register I := by
+    intro d hd
+    obtain ⟨p, _, hdp⟩ := mem_unionAll.1 hd
+    exact h.1 p d hdp
+  refine ⟨hin, ?_⟩
+  intro d hd
+  rcases mem_transfer_imp s _ _ d hd with h1 | ⟨h1, h2⟩
+  · exact hin d h1
+  · obtain ⟨a, b⟩ := d
+    simp only at h1 h2
+    subst h1
+    exact mem_register_of_defsOf I h2
+
+theorem step_reg (v : Variant) (I : Input) (G : Graph) (st : St) (h : RegInv I st) :
+    RegInv I (step v I G st) := by
+  unfold step
+  split
+  · exact h
+  · rename_i s _
+    split
+    · exact h
+    · split
+      · obtain ⟨ha1, ha2⟩ := analyse_reg I G st s h
+        refine ⟨?_, ?_, ?_⟩
+        · intro u d hd
+          simp only at hd
+          by_cases hu : u = s
+          · subst hu; rw [upd_same] at hd; exact ha2 d hd
+          · rw [upd_other _ _ hu] at hd; exact h.1 u d hd
+        · intro u d hd
+          simp only at hd
+          by_cases hu : u = s
+          · subst hu; rw [upd_same] at hd; exact ha1 d hd
+          · rw [upd_other _ _ hu] at hd; exact h.2.1 u d hd
+        · intro l hl d hd
+          simp only at hl
+          rcases List.mem_cons.1 hl with rfl | hl
+          · exact ha1 d hd
+          · exact h.2.2 l hl d hd
+      · exact h
+
+theorem run_reg (v : Variant) (I : Input) (G : Graph) : ∀ (fuel : Nat) (st : St), RegInv I st →
+    RegInv I (run v I G fuel st) := by
+  intro fuel
+  induction fuel with
+  | zero => intro st h; exact h
+  | succ n ih => intro st h; simp only [run]; exact ih _ (step_reg v I G st h)
+
+theorem useSite_eq_filter {reg avail : List Def} (h : ∀ d ∈ avail, d ∈ reg) (sym : Int) :
+    useSite reg avail sym = avail.filter (fun d => d.1 == sym) := by
+  unfold useSite
+  apply List.filter_congr
+  intro d hd
+  have : reg.contains d = true := List.contains_iff_mem.2 (h d hd)
+  rw [this, Bool.and_true]
+
 /-! ### termination of the visit loop: a ranking function -/
 
 open LianVerif.WorkList
